@@ -80,7 +80,10 @@ def mdhd(rng) -> bytes:
 
 def hdlr(rng) -> bytes:
     name = rng.choice([b'', b'VideoHandler', b'SoundHandler', b'USP Text Handler', 'Gestionnaire vid\u00e9o'.encode()])
-    return full(b'hdlr', 0, 0, b'\0' * 4 + rng.choice([b'vide', b'soun', b'subt', b'text', b'meta']) + b'\0' * 12 + name + b'\0')
+    # the name is a null-terminated string; writers also pad it with further NULs, and QuickTime-style
+    # writers end the box right after the last character
+    term = rng.choice([b'\0'] * 6 + [b'', b'\0\0', b'\0\0\0\0'])
+    return full(b'hdlr', 0, 0, b'\0' * 4 + rng.choice([b'vide', b'soun', b'subt', b'text', b'meta']) + b'\0' * 12 + name + term)
 
 
 def mehd(rng) -> bytes:
@@ -254,7 +257,7 @@ def schm(rng) -> bytes:
 
 
 def mime(rng) -> bytes:
-    return full(b'mime', 0, 0, rng.choice([b'application/ttml+xml;codecs=im1t', b'text/vtt', b'image/png']) + b'\0')
+    return full(b'mime', 0, 0, rng.choice([b'application/ttml+xml;codecs=im1t', b'text/vtt', b'image/png', b'']) + b'\0')
 
 
 def vttc(rng) -> bytes:
